@@ -333,9 +333,9 @@ glyphLoop:
 					return nil, err
 				}
 				stack = stack[:len(stack)-1]
-				switch idx { // pre-defined subroutines
-				case 3:
-					// Entry 3 in the Subrs array is a charstring that does nothing.
+				if idx == 3 && (len(info.subrs) <= 3 || info.subrs[3] == nil) {
+					// Entry 3 in the Subrs array is customarily a charstring
+					// that does nothing.  Tolerate fonts where it is missing.
 					break opSwitch
 				}
 
